@@ -157,7 +157,7 @@ def check_c01(ctx):
 
 def check_all(ctx, decisive, label):
     q = ctx.tier == "quick"
-    mcd = {"N": 3, "WLO": 1, "WHI": 2, "PICKS": 2, "UPDATES": 1, "FLIPS": 1, "CONNOPS": 2, "MAXCONN": 2, "SCALE": 2} if q else \
+    mcd = {"N": 3, "WLO": 1, "WHI": 2, "PICKS": 2, "UPDATES": 1, "FLIPS": 1, "CONNOPS": 1, "MAXCONN": 1, "SCALE": 2} if q else \
           {"N": 3, "WLO": 1, "WHI": 2, "PICKS": 3, "UPDATES": 1, "FLIPS": 2, "CONNOPS": 2, "MAXCONN": 2, "SCALE": 2}
     ctx.cov["constants"]["MC_All"] = mcd
     ctx.tlc_must_pass("Balancer", "Slb", "MC_All.cfg", defines=mcd, timeout=2400, coverage=False)
@@ -176,8 +176,104 @@ def check_all(ctx, decisive, label):
     run_cases(ctx, cases, twin=False, label=label, decisive=decisive)
 
 
+def run_gslb(ctx):
+    """Cluster-level decision (Gslb.tla): TLC enumerates configuration x request with the allowed
+    outcome sets; cmd/balancer gslb-run replays each on a real BalanceGslb (WRR, WLC, sticky)."""
+    q = ctx.tier == "quick"
+    d = {"K": 3, "MAXRETRY": 1, "MAXRT": 3, "MAXRES": 3} if q else {"K": 4, "MAXRETRY": 2, "MAXRT": 4, "MAXRES": 4}
+    dm = {"K": 3, "MAXRETRY": 1, "MAXRT": 3, "MAXRES": 3} if q else {"K": 3, "MAXRETRY": 2, "MAXRT": 4, "MAXRES": 4}
+    ctx.cov["constants"]["MC_Gslb"] = dm
+    ctx.tlc_must_pass("Balancer", "Gslb", "MC_Gslb.cfg", defines=dm, timeout=2400)
+    r = ctx.tlc("Balancer", "GenGslb", "Gen_Gslb.cfg", mode="sim", sim_num=4000 if q else 60000, sim_depth=3,
+                defines=d, timeout=1800, count=False)
+    if not r.ok or not r.cases:
+        raise vlib.MachineryError("GenGslb failed: %s %s" % (r.error or r.violation, r.out[-400:]))
+    cases = r.cases
+    for i, c in enumerate(cases):
+        c["id"] = i + 1
+    res = ctx.harness("balancer", ["gslb-run"], cases=cases, timeout=900)
+    summ = [x for x in res if x.get("summary")]
+    if not summ or summ[0]["cases"] != len(cases) or any("_harness_exit" in x for x in res):
+        raise vlib.MachineryError("gslb-run died: %s" % res[-2:])
+    nd = 0
+    for x in res:
+        if "ok" not in x:
+            continue
+        if x.get("drift"):
+            nd += 1
+            if nd == 1:
+                ctx.drift("action=Balance(gslb) " + x["drift"])
+        if not x["ok"]:
+            ctx.report(x["sig"], x.get("detail", ""), case=x.get("case"), harness="balancer", cmd="gslb-run")
+    for c in cases:
+        ctx.count({k: c[k] for k in ("sw", "shape", "retryMax", "crossRetry", "rt", "r")},
+                  nontrivial=c["expect"]["load"])
+    ctx.traces(len(cases))
+    ctx.sample({"gslb_case": cases[0]})
+
+
 def check_c03(ctx):
     check_all(ctx, {"ReplyOK", "unknown-backend"}, "C03")
+    run_gslb(ctx)
+    ctx.cov["rule"] += (" Plus Gslb.tla: TLC-simulated (configuration, request) pairs with the allowed outcome set, "
+                        "replayed on bal_gslb.BalanceGslb in WRR, WLC and sticky mode.")
+
+
+def check_c02(ctx):
+    q = ctx.tier == "quick"
+    mc = {"N": 4, "MAXW": 3} if q else {"N": 5, "MAXW": 4}
+    ctx.cov["constants"]["MC_Sticky"] = mc
+    ctx.tlc_must_pass("Balancer", "Sticky", "MC_Sticky.cfg", defines=mc, timeout=1200)
+    cases = []
+    for n, mw in ((2, 3), (3, 2)) if q else ((2, 4), (3, 3), (4, 2)):
+        r = ctx.tlc("Balancer", "GenSticky", "Gen_Sticky.cfg", defines={"N": n, "MAXW": mw}, timeout=600, count=False)
+        if not r.ok:
+            raise vlib.MachineryError("GenSticky failed: %s" % (r.error or r.violation))
+        for c in r.cases:
+            if sum(c["w"]) == 0:
+                continue
+            cases.append(dict(c, kind="slb"))
+            cases.append(dict(c, kind="gslb"))
+    import random
+    rnd = random.Random(ctx.seed)
+    if len(cases) > (500 if q else 4000):
+        # keep the run short: seeded subset, always including the corner configurations
+        keep = [c for c in cases if not all(c["av"]) or 0 in c["w"]][: (150 if q else 1000)]
+        rest = [c for c in cases if c not in keep]
+        rnd.shuffle(rest)
+        cases = keep + rest[: (350 if q else 3000)]
+    for i, c in enumerate(cases):
+        c["id"] = i + 1
+    res = ctx.harness("balancer", ["sticky-run"], cases=cases, timeout=1500)
+    events = [x for x in res if "ev" in x]
+    summ = [x for x in res if x.get("summary")]
+    if not summ or summ[0]["cases"] != len(cases) or any("_harness_exit" in x for x in res):
+        raise vlib.MachineryError("sticky-run died: %s" % res[-2:])
+    strategies = {}
+    for i, e in enumerate(events):
+        strategies[i + 1] = e.pop("strategy", "perm%s" % e.get("perm"))
+    trace = "".join(json.dumps(e, separators=(",", ":")) + "\n" for e in events)
+    r = ctx.tlc("Balancer", "TraceSticky", "TraceSticky.cfg", mode="trace", timeout=1500,
+                extra_files={"trace.ndjson": trace}, count=False)
+    rep = [c for c in r.cases if c.get("done")]
+    if not r.ok or not rep or rep[0]["consumed"] != len(events):
+        raise vlib.MachineryError("TraceSticky did not complete: %s %s" % (r.error or r.violation, r.out[-500:]))
+    by_id = {c["id"]: c for c in cases}
+    for b in rep[0]["bad"]:
+        c = by_id[b["cid"]]
+        sig = "%s/%s/%s" % (b["why"], c["kind"], strategies[b["l"]] if c["kind"] == "gslb" else "order")
+        ctx.report(sig, "config %s; recorded table event #%d %s" % (c, b["l"], str(events[b["l"] - 1])[:300]),
+                   case=c, harness="balancer", cmd="sticky-run")
+    ctx.traces(len(cases))
+    for c in cases:
+        ctx.count({k: c[k] for k in ("kind", "w", "av")}, nontrivial=sum(1 for x, a in zip(c["w"], c["av"]) if x > 0 and a) > 1)
+    ctx.sample({"config": cases[0], "recorded": events[:3]})
+    ctx.cov["rule"] = ("cases = all (weights, availability) configurations TLC enumerates for N targets (seeded subset when "
+                       "large), each as session-sticky backend pick (all configuration orders) and as hash sub-cluster pick "
+                       "(5 hash strategies x 2 fresh objects); the harness records the complete residue -> target table with "
+                       "two keys per residue; TLC (TraceSticky) evaluates Partition, OnlyEligible, Stable, OrderIndep. "
+                       "nontrivial = at least two eligible targets.")
+    ctx.assumptions.append("the key hash is murmur3-64 (used only to find keys for every residue); empty hash keys are random by design and excluded")
 
 
 def check_c04(ctx):
@@ -188,10 +284,17 @@ def check_c05(ctx):
     check_all(ctx, {"panic", "hang"}, "C05")
 
 
-PROPS = {"C01": check_c01, "C03": check_c03, "C04": check_c04, "C05": check_c05}
+PROPS = {"C02": check_c02, "C01": check_c01, "C03": check_c03, "C04": check_c04, "C05": check_c05}
 
 
 def replay(ctx, pid, rep):
+    if rep.get("cmd") in ("gslb-run", "sticky-run"):
+        res = ctx.harness("balancer", [rep["cmd"]], cases=[rep["case"]], timeout=600)
+        for x in res:
+            print(json.dumps(x)[:600])
+        bad = [x for x in res if x.get("ok") is False]
+        print("replay: %s" % ("violation reproduced" if bad else "see recorded events above"))
+        return 1 if bad else 0
     case = dict(rep["case"])
     twin = case.pop("twin", False)
     n = run_cases(ctx, [case], twin=twin, label="replay")
